@@ -98,8 +98,9 @@ def run(ctx):
     for (op, py, nt), r in zip(cases, specs):
         if r.split(' | ')[0].startswith('witness_v'):
             addr_part = py.split(' ', 1)[1] if ' ' in py else ''
-            if (addr_part.strip() == '' or addr_part.startswith('address-raises:EncodingError')) and 'lock_script-changed' not in py:
-                # a future witness program (not P2WPKH / P2WSH / P2TR) for which the library names no address: outside the
+            proglen = len(op.split(' ')[2]) // 2 - 2
+            if proglen not in (20, 32) and (addr_part.strip() == '' or addr_part.startswith('address-raises:EncodingError')) and 'lock_script-changed' not in py:
+                # a future witness program whose length is neither 20 nor 32 bytes (C05 quantifies over 20/32-byte payloads): outside the
                 # standard destinations C05 quantifies over; the script itself is kept byte for byte
                 ctx.count('future-witness-program-without-address')
                 continue
